@@ -18,8 +18,22 @@ def _pres(t):
 
 def exc_price_level(den, F=None, s=None):
     """the denominator is a price itself: a window slot or the input, selected by conditions, with no arithmetic"""
-    from terms import leaves
-    return all(isinstance(l, tuple) and (l == ("arg", "a0") or l[0] == "get" or (l[0] == "select" and isinstance(l[1], tuple) and l[1][0] == "pre")) for _, l in leaves(den))
+    from terms import is_const, leaves
+
+    def level(l):
+        if isinstance(l, tuple) and l[0] == "gamma":
+            return level(l[2]) and level(l[3])
+        if isinstance(l, tuple) and l[0] in ("*", "/") and len(l) == 3:
+            # a price level scaled by a non-zero constant is zero exactly when the level is
+            if l[0] == "/" and is_const(l[2]) and l[2][2] != 0:
+                return level(l[1])
+            if l[0] == "*" and is_const(l[2]) and l[2][2] != 0:
+                return level(l[1])
+            if l[0] == "*" and is_const(l[1]) and l[1][2] != 0:
+                return level(l[2])
+            return False
+        return isinstance(l, tuple) and (l == ("arg", "a0") or l[0] == "get" or (l[0] == "select" and isinstance(l[1], tuple) and l[1][0] == "pre"))
+    return all(level(l) for _, l in leaves(den))
 
 
 _counting = {}
